@@ -85,6 +85,7 @@ def self_validate(mod, prop, tier, base: Ctx, budget_s: float):
                     res["skipped_for_time"] += 1
     except (OSError, PermissionError):
         results = [_one_variant(j) for j in jobs]
+    results.append(_global_neutral(prop, base_bad))
     for name, kind, state, payload, expect in results:
         if state == "inapplicable":
             res["inapplicable"] += 1
@@ -115,6 +116,29 @@ def self_validate(mod, prop, tier, base: Ctx, budget_s: float):
                 k = (new_ref or new_unk)[0][1] if (new_ref or new_unk) else err
                 res["false_alarm"].append(f"neutral variant '{name}' raised {k}")
     return res
+
+
+def _global_neutral(prop, base_bad):
+    """Whole-package alpha-renaming of locals + re-emission of every module: must change no verdict."""
+    from .model import repo_root
+    from .neutral import alpha_overlay
+
+    mod = load_rules(prop)
+    name = "every local variable of the package renamed, modules re-emitted without comments/layout"
+    try:
+        overlay, n_f, n_l = alpha_overlay(repo_root())
+        name += f" ({n_l} locals in {n_f} functions)"
+        v = run_rules(mod, prop, "quick", Repo(overlay=overlay))
+        new_ref = [(f.rule, f.key) for f in v.findings if f.verdict == REFUTED and f.key not in base_bad]
+        new_unk = [(f.rule, f.key) for f in v.findings if f.verdict == UNKNOWN and f.key not in base_bad]
+        err = None
+        if any(g < fl for _n, g, fl in v.floors):
+            err = "an instance floor is not met on the renamed package"
+    except AnalysisError as e:
+        new_ref, new_unk, err = [], [], str(e)
+    except Exception as e:  # noqa: BLE001
+        new_ref, new_unk, err = [], [], f"internal error: {type(e).__name__}: {e}"
+    return (name, "neutral", "ran", (new_ref, new_unk, err), ())
 
 
 def _one_auto(job):
